@@ -4,6 +4,18 @@
 // (no gap, repeats only as byte-identical retransmissions), the next point is the
 // point of height+2, and at that instant the durable state already holds a newer
 // local commitment. The monitor lives in engine/chanmc (onRevoke).
+//
+// "... or on reconnect": every channel_reestablish a party produces is judged field
+// by field (next_commitment_number, next_revocation_number,
+// your_last_per_commitment_secret, my_current_per_commitment_point, taproot nonce,
+// channel id) against the explorer's own derivation from the two producers and the
+// durable heights (engine/chanmc reest.go, Params.ReestMonitor): at every cut, in
+// the live-object probe, and - read-only - in EVERY distinct state for both parties
+// ("what would this node send if it restarted here", live object and fresh handle).
+// The reestablish family crosses all seven channel types with every cut point of a
+// full dance in both directions (durable local height equal to / one ahead of / one
+// behind the remote height) with the data-loss-protect fields on, so that the peer's
+// own verification of the fields (legacy channels) is an end-to-end oracle as well.
 package c06rel
 
 import (
@@ -34,6 +46,28 @@ func TestC06Release(t *testing.T) {
 		os.Exit(run.Finish(map[string]any{"evaluations": 1, "distinct_nontrivial": 2, "rule": "replay", "samples": []any{rp}}))
 	}
 	var sp []chanmc.Space
+	reestHere := func(w *chanmc.World) { w.CheckReestHere() }
+	// Reestablish family (first: it is small and must not be starved by the
+	// deadline). Crossing rule: every channel type x every state of one complete
+	// HTLC life cycle (add, sign, revoke, sign, revoke, settle, sign, revoke, sign,
+	// revoke - each party passes through local==remote, local==remote+1 and
+	// remote==local+1) x {a reconnect in that state, the live-object probe probe>X
+	// wherever a commitment_signed is at the head of X's wire}; offerer and opener alternate
+	// over the types (thorough adds, per type, the opposite opener/offerer with a
+	// failed HTLC interleaved with a fee update; the two-reconnect spaces below
+	// carry the same monitor).
+	for i, typ := range chanmc.AllTypes {
+		sp = append(sp, chanmc.Space{Dev: -1, OnState: reestHere, P: chanmc.Params{Type: typ, OpenerB: i%2 == 1, MaxCuts: 1, ReestMonitor: true, ProbeLiveReest: true, Script: []chanmc.Intent{
+			{By: (i / 2) % 2, Amt: 50_000_000, Fate: "settle"},
+		}}})
+	}
+	if run.Thorough() {
+		for i, typ := range chanmc.AllTypes {
+			sp = append(sp, chanmc.Space{Dev: -1, OnState: reestHere, P: chanmc.Params{Type: typ, OpenerB: i%2 == 0, MaxCuts: 1, ReestMonitor: true, ProbeLiveReest: true, Fees: []int64{7000}, Script: []chanmc.Intent{
+				{By: 1 - (i/2)%2, Amt: 50_000_000, Fate: "fail"},
+			}}})
+		}
+	}
 	types := []string{"legacy", "lease"}
 	if run.Thorough() {
 		types = chanmc.AllTypes
@@ -47,17 +81,17 @@ func TestC06Release(t *testing.T) {
 		sideTypes, sideCuts = chanmc.AllTypes, 1
 	}
 	for i, typ := range sideTypes {
-		sp = append(sp, chanmc.Space{Dev: -1, P: chanmc.Params{Type: typ, OpenerB: i%2 == 0, MaxCuts: sideCuts, CutOnlyInSync: true, SideWriters: true, Script: []chanmc.Intent{
+		sp = append(sp, chanmc.Space{Dev: -1, OnState: reestHere, P: chanmc.Params{Type: typ, OpenerB: i%2 == 0, MaxCuts: sideCuts, CutOnlyInSync: true, SideWriters: true, ReestMonitor: true, Script: []chanmc.Intent{
 			{By: 0, Amt: 50_000_000, Fate: "settle"}, {By: 1, Amt: 60_000_001, Fate: "fail"},
 		}}})
 	}
 	for i, typ := range types {
-		sp = append(sp, chanmc.Space{Dev: -1, P: chanmc.Params{Type: typ, OpenerB: i%2 == 1, MaxCuts: 2, CutOnlyInSync: true, NoDLP: i%2 == 0, ProbeLiveReest: true, Script: []chanmc.Intent{
+		sp = append(sp, chanmc.Space{Dev: -1, OnState: reestHere, P: chanmc.Params{Type: typ, OpenerB: i%2 == 1, MaxCuts: 2, CutOnlyInSync: true, NoDLP: i%2 == 0, ProbeLiveReest: true, ReestMonitor: true, Script: []chanmc.Intent{
 			{By: 0, Amt: 50_000_000, Fate: "settle"}, {By: 1, Amt: 60_000_001, Fate: "settle"},
 		}}})
 	}
 	agg := chanmc.RunSpaces(run, sp, time.Now().Add(budget), 0)
-	cov := agg.Coverage("release rule monitored on every revoke_and_ack returned in every transition of the explored two-peer schedules with up to two reconnects; distinct_nontrivial = distinct canonical states; see oracle_counts.revocations_checked")
+	cov := agg.Coverage("release rule monitored on every revoke_and_ack returned in every transition of the explored two-peer schedules with up to two reconnects; every channel_reestablish (at each reconnect and, read-only, for both parties in every distinct state) judged field by field against the producers and the durable heights; distinct_nontrivial = distinct canonical states; see oracle_counts.revocations_checked and oracle_counts.reestablish_*")
 	if code := run.Finish(cov); code != 0 {
 		os.Exit(code)
 	}
